@@ -83,6 +83,10 @@ type Config struct {
 	// or to the first one when ClampNegToZero is set).
 	ClampOOB       bool
 	ClampNegToZero bool
+	// BufPolicy, when set ("restrict" or "rzsw"), replaces ClampOOB / ZeroOOBReads for
+	// accesses through references rooted in a storage or uniform variable (backends with
+	// separate buffer and index policies).
+	BufPolicy string
 }
 
 // Result of a run.
@@ -544,7 +548,7 @@ func (m *machine) ref(e wgen.Expr) refT {
 		iv := m.eval(x.I)
 		m.discrete(iv)
 		i, ok := indexOf(iv, len(r.cell.E))
-		if !ok && m.cfg.ClampOOB && len(r.cell.E) > 0 {
+		if clamp, _ := m.oobPolicy(r.root); !ok && clamp && len(r.cell.E) > 0 {
 			m.ev.OOB++
 			i, ok = m.clampIndex(iv, len(r.cell.E)), true
 		}
@@ -590,6 +594,15 @@ func indexOf(iv Value, n int) (int, bool) {
 		return 0, false
 	}
 	return int(i), true
+}
+
+// oobPolicy gives the out-of-range policy (clamp / zero-read) that applies to an access
+// rooted in variable root (nil: a by-value composite or a pointer parameter).
+func (m *machine) oobPolicy(root *wgen.Var) (clamp, zero bool) {
+	if m.cfg.BufPolicy != "" && root != nil && (root.Kind == wgen.VStorage || root.Kind == wgen.VUniform) {
+		return m.cfg.BufPolicy == "restrict", m.cfg.BufPolicy == "rzsw"
+	}
+	return m.cfg.ClampOOB, m.cfg.ZeroOOBReads
 }
 
 func (m *machine) store(r refT, v Value, lhs wgen.Expr) {
